@@ -362,7 +362,7 @@ func c20Scenario(r *kit.Run, idx int64, rng *rand.Rand) {
 			}
 		}
 		for s := 0; s < steps && !failed && inconclusive == ""; s++ {
-			act := []int{0, 0, 0, 0, 1, 1, 1, 2, 3, 4}[rng.IntN(10)]
+			act := []int{0, 0, 0, 0, 1, 1, 1, 2, 3, 4, 6}[rng.IntN(11)]
 			if np := len(parkOrder); np >= 2 && rng.IntN(2) == 0 {
 				act = 5 // several iterators are parked on the same condition: cancel the one that parked last
 			}
@@ -391,6 +391,24 @@ func c20Scenario(r *kit.Run, idx int64, rng *rand.Rand) {
 				}
 				v := addFar()
 				script = append(script, fmt.Sprintf("add %d", v))
+				settle()
+			case 6:
+				// a burst: several additions, possibly followed by Close, land
+				// before a parked step has been able to react to the first
+				if closed {
+					break
+				}
+				nb := 1 + rng.IntN(3)
+				thenClose := rng.IntN(2) == 0
+				for k := 0; k < nb; k++ {
+					v := addFar()
+					script = append(script, fmt.Sprintf("add %d (burst)", v))
+				}
+				if thenClose {
+					box.close()
+					closed = true
+					script = append(script, "close (same burst)")
+				}
 				settle()
 			case 2: // remove
 				if !withRemoval || len(present) == 0 {
